@@ -263,6 +263,30 @@ func genC02(r *rng, tier string, emit func(string)) {
 			k2 := r.sm2key()
 			dec(k2.d, ct)
 		}
+		// nonces for which a coordinate of the shared point [k]P has leading zero bytes (about 1 in 64): the
+		// KDF and C3 inputs are fixed-width 32-byte strings in GM/T 0003.4
+		if i%5 == 0 {
+			nm1 := new(big.Int).Sub(sm2.P256Sm2().Params().N, big.NewInt(1))
+			for tries := 0; tries < 2000; tries++ {
+				rnd2 := r.bytes(80)
+				kk := new(big.Int).SetBytes(rnd2[:40])
+				kk.Mod(kk, nm1).Add(kk, big.NewInt(1))
+				x2, y2 := sm2.P256Sm2().ScalarMult(k.x, k.y, kk.Bytes())
+				if len(x2.Bytes()) < 32 || len(y2.Bytes()) < 32 {
+					emit(fmt.Sprintf("sm2enc %s %s %s %s %s", bhex(k.x), bhex(k.y), mode, hx(msg), hx(rnd2)))
+					var ct2 []byte
+					if mode == "asn1" {
+						ct2, err = sm2.EncryptAsn1(pub, msg, &fixedRand{append([]byte{}, rnd2...)})
+					} else {
+						ct2, err = sm2.Encrypt(pub, msg, &fixedRand{append([]byte{}, rnd2...)}, modeOf(mode))
+					}
+					if err == nil {
+						dec(k.d, ct2)
+					}
+					break
+				}
+			}
+		}
 		// invalid-curve ciphertexts that are otherwise consistent (raw and ASN.1 form)
 		if i%3 == 0 {
 			x1, y1 := new(big.Int).SetBytes(r.bytes(31)), new(big.Int).SetBytes(r.bytes(31))
